@@ -159,7 +159,9 @@ def sib_add(ctx: Ctx) -> List[Ob]:
 
         rest = sorted(("" if pol else "not ") + _rename(norm(_rx(ctx, f, st, e, keep=[srct])), {srct: "SRC"}) for e, pol in pcs
                       if e is not atom and any(isinstance(x, ast.Name) and x.id == srct for x in ast.walk(e))
-                      and not norm(e).startswith("isinstance("))  # (the dispatch on the argument's type is not part of the refusal)
+                      and not norm(e).startswith("isinstance(")  # (the dispatch on the argument's type is not part of the refusal)
+                      and not (isinstance(e, ast.Compare) and len(e.ops) == 1 and isinstance(e.ops[0], (ast.Is, ast.IsNot)) and isinstance(e.comparators[0], ast.Constant)
+                               and e.comparators[0].value is None))  # (... nor is "there is a source node at all")
         shapes.append(rest)
     ok = shapes[0] == shapes[1]
     obs.append(ctx.ob("SIB-ADD", ["C03"], fa, "both add_child implementations refuse the same condition", ra[1], ok,
